@@ -121,8 +121,20 @@ def install(model, seeds, with_stats=True, reuse_streams=False, long_lived_produ
             m.streams = [MersenneTwister(s) for s in m.seeds]
         if default_info:
             from pydsol.core.streams import StreamInformation
-            m.stream_info = StreamInformation()
-            m.streams = [m.stream_info.get_stream("default")] + list(m.streams[1:])
+            if m.seeds and m.seeds[0] % 2 == 0:
+                m.stream_info = StreamInformation()
+                m.streams = [m.stream_info.get_stream("default")] + list(m.streams[1:])
+            else:
+                # the model keeps ONE StreamInformation for its whole life and registers the streams of the
+                # replication under the same ids every time it is constructed
+                if getattr(m, "stream_info_kept", None) is None:
+                    m.stream_info_kept = StreamInformation()
+                m.stream_info = m.stream_info_kept
+                for i_, so_ in enumerate(m.streams):
+                    m.stream_info.add_stream("default" if i_ == 0 else "s%d" % i_,
+                                             MersenneTwister(10) if i_ == 0 else so_)
+                m.streams = [m.stream_info.get_stream("default" if i_ == 0 else "s%d" % i_)
+                             for i_ in range(len(m.streams))]
         # distributions on the streams: created per replication, or (with reuse_streams) long-lived objects whose
         # stream is assigned again after the re-seeding - the way a model re-uses its distributions in an experiment
         from pydsol.core.distributions import DistNormal, DistExponential, DistLogNormal, DistUniform, DistTriangular
